@@ -637,6 +637,7 @@ func (p *SelectForm) typecheckForm(gammaNameTypesCtx NamesTypesCtx, providerShad
 
 			// Set types
 			p.to_c.Type = clientBranchCaseType
+			continuationType = types.Unfold(continuationType, labelledTypesEnv)
 			p.continuation_c.Type = continuationType
 		} else {
 			return TypeErrorf("could not match label '%s' (from '%s') with the labels from the type '%s'", p.label.String(), p.String(), clientBranchCaseType.String())
@@ -691,7 +692,7 @@ func (p *CaseForm) typecheckForm(gammaNameTypesCtx NamesTypesCtx, providerShadow
 			}
 
 			// Set type
-			curBranchForm.payload_c.Type = expectedBranchType.SessionType
+			curBranchForm.payload_c.Type = types.Unfold(expectedBranchType.SessionType, labelledTypesEnv)
 
 			polarityError := checkExplicitPolarityValidity(p, curBranchForm.payload_c)
 			if polarityError != nil {
@@ -759,7 +760,7 @@ func (p *CaseForm) typecheckForm(gammaNameTypesCtx NamesTypesCtx, providerShadow
 			newGammaNameTypesCtx[curBranchForm.payload_c.Ident] = NamesType{Type: expectedBranchType.SessionType}
 
 			// Set type
-			curBranchForm.payload_c.Type = expectedBranchType.SessionType
+			curBranchForm.payload_c.Type = types.Unfold(expectedBranchType.SessionType, labelledTypesEnv)
 
 			polarityError := checkExplicitPolarityValidity(p, curBranchForm.payload_c)
 			if polarityError != nil {
@@ -1105,7 +1106,7 @@ func (p *DropForm) typecheckForm(gammaNameTypesCtx NamesTypesCtx, providerShadow
 
 		if types.IsWeakenable(clientType) {
 			// Set type
-			p.client_c.Type = clientType
+			p.client_c.Type = types.Unfold(clientType, labelledTypesEnv)
 
 			// compare annotated polarities
 			polarityError := checkExplicitPolarityValidity(p, p.client_c)
@@ -1165,7 +1166,7 @@ func (p *CallForm) typecheckForm(gammaNameTypesCtx NamesTypesCtx, providerShadow
 			}
 
 			// Set types
-			p.parameters[i].Type = foundParamType
+			p.parameters[i].Type = types.Unfold(foundParamType, labelledTypesEnv)
 
 			// compare annotated polarities
 			polarityError := checkExplicitPolarityValidity(p, p.parameters[i])
@@ -1201,7 +1202,7 @@ func (p *CallForm) typecheckForm(gammaNameTypesCtx NamesTypesCtx, providerShadow
 			}
 
 			// Set types
-			p.parameters[i].Type = foundParamType
+			p.parameters[i].Type = types.Unfold(foundParamType, labelledTypesEnv)
 
 			// compare annotated polarities
 			if polarityError := checkExplicitPolarityValidity(p, p.parameters[i]); polarityError != nil {
